@@ -11,16 +11,37 @@ structure FPos where
 def piF : Float := 3.14159265358979323846264338327950288
 def toRad (x : Float) : Float := x * (piF / 180.0)
 
-/-- `haversine_distance` (after the repairs: `x_long * x_long`, `1 - a` clamped at 0) -/
-def haversine (s o : Float × Float) : Float :=
+/-- the arithmetic and the `libm` functions `haversine_distance` uses, as parameters (instantiated with `Float` for the
+driver and with `ℝ` in `Theorems/C13b`) -/
+structure HavOps (α : Type) where
+  add : α → α → α
+  sub : α → α → α
+  mul : α → α → α
+  div : α → α → α
+  lit : Nat → α
+  pi : α
+  sin : α → α
+  cos : α → α
+  sqrt : α → α
+  atan2 : α → α → α
+  max0 : α → α                             -- `fmax(x, 0.0)`
+
+/-- `haversine_distance` (after the repairs: `x_long * x_long`, `1 - a` clamped at 0), generic in the number type -/
+def haversineG {α : Type} (H : HavOps α) (s o : α × α) : α :=
+  let toRad := fun x => H.mul x (H.div H.pi (H.lit 180))
   let lat1 := toRad s.1; let lat2 := toRad o.1; let lon1 := toRad s.2; let lon2 := toRad o.2
-  let xLat := Float.sin ((lat2 - lat1) / 2.0)
-  let xLon := Float.sin ((lon2 - lon1) / 2.0)
-  let a := xLat * xLat + Float.cos lat1 * Float.cos lat2 * xLon * xLon
-  let d := 1.0 - a
-  let d := if d < 0.0 then 0.0 else d          -- `fmax(1 - a, 0)` (after the repair)
-  let c := 2.0 * Float.atan2 (Float.sqrt a) (Float.sqrt d)
-  6371.0 * c
+  let xLat := H.sin (H.div (H.sub lat2 lat1) (H.lit 2))
+  let xLon := H.sin (H.div (H.sub lon2 lon1) (H.lit 2))
+  let a := H.add (H.mul xLat xLat) (H.mul (H.mul (H.mul (H.cos lat1) (H.cos lat2)) xLon) xLon)
+  let c := H.mul (H.lit 2) (H.atan2 (H.sqrt a) (H.sqrt (H.max0 (H.sub (H.lit 1) a))))
+  H.mul (H.lit Gen.earthRadius) c
+
+def floatHav : HavOps Float :=
+  { add := (· + ·), sub := (· - ·), mul := (· * ·), div := (· / ·), lit := Float.ofNat, pi := piF,
+    sin := Float.sin, cos := Float.cos, sqrt := Float.sqrt, atan2 := Float.atan2,
+    max0 := fun d => if d < 0.0 then 0.0 else d }
+
+def haversine (s o : Float × Float) : Float := haversineG floatHav s o
 
 def geoF (rx : Float × Float) (range : Float) : Geo FPos Float where
   getPos e o := (getPosition (α := Float) e o).map (fun p => { lat := p.lat, lon := p.lon })
@@ -43,12 +64,7 @@ def showCoor (c : Coor FPos Float) : String :=
   s!"e={showAltSlot c.even} o={showAltSlot c.odd} pos={showPos c.pos} kd={match c.kd with | none => "-" | some d => toString d}"
 
 def velTriple (v : Velocity) : String :=
-  let ew := Float.ofInt v.vEw
-  let ns := Float.ofInt v.vNs
-  let h := Float.atan2 ew ns * (360.0 / (2.0 * piF))
-  let h := if h < 0.0 then h + 360.0 else h
-  let g := Float.sqrt (ew * ew + ns * ns)
-  s!"{h.toFloat32.toFloat},{g.toFloat32.toFloat},{v.vrate}"
+  s!"{(headingG floatTrack v).toFloat32.toFloat},{(speedG floatTrack v).toFloat32.toFloat},{v.vrate}"
 
 def hex6 (n : Nat) : String := hexStr n 6
 
